@@ -249,9 +249,117 @@ def main(nseeds):
     return dict(violation=False, cases=cases, known=known)
 
 
+# numpy arrays (run with the numpy overlay interpreter): digests tell apart what tells arrays apart - element bytes, dtype, shape, memory
+# order, class - and nothing else: an equal copy, the same array after a pickle round trip or in another process gets the same digest
+NUMPY = r'''
+import itertools, json, os, pickle, subprocess, sys, tempfile
+import numpy as np
+import joblib
+def universe():
+    out = []
+    base = {"u1": np.arange(6, dtype="u1"), "i2": np.arange(6, dtype="<i2"), "i2be": np.arange(6, dtype=">i2"), "f4": np.arange(6, dtype="f4"), "f8": np.arange(6, dtype="f8"),
+            "b": np.array([True, False] * 3), "S1": np.array([b"a", b"b", b"c", b"d", b"e", b"f"]), "U1": np.array(list("abcdef")),
+            "dt": np.arange(6).astype("datetime64[s]"), "rec": np.zeros(6, dtype=[("a", "u1"), ("b", "<i2")])}
+    for name, a in base.items():
+        out.append((name + ":1d", a))
+        out.append((name + ":2x3", a.reshape(2, 3)))
+        out.append((name + ":3x2", a.reshape(3, 2)))
+        out.append((name + ":2x3F", np.asfortranarray(a.reshape(2, 3))))
+        out.append((name + ":rev", a[::-1]))
+        out.append((name + ":step2", a[::2]))
+        out.append((name + ":0d", a[0:1].reshape(())))
+        out.append((name + ":empty", a[:0]))
+        b = a.copy()
+        if b.dtype.kind not in "V":
+            b[-1] = b[0]
+        else:
+            b["a"][-1] = 9
+        out.append((name + ":1d-other-content", b))
+    # shapes that differ where neither the bytes nor the strides do (empty arrays), and arrays that differ only far from their start
+    for shp in ((2, 0), (3, 0), (0, 2), (0, 3), (0,), (0, 0)):
+        out.append(("empty-u1:%r" % (shp,), np.zeros(shp, dtype="u1")))
+    for size in (5000, 70000, 1100000):
+        z = np.zeros(size, dtype="u1")
+        out.append(("zeros:%d" % size, z))
+        for pos in (size - 1, size // 2):
+            y = z.copy()
+            y[pos] = 1
+            out.append(("zeros:%d-but-one-at-%d" % (size, pos), y))
+    out.append(("obj:1d", np.array([1, "a", None], dtype=object)))
+    out.append(("obj:other", np.array([1, "a", 0], dtype=object)))
+    out.append(("matrix", np.matrix(np.arange(6, dtype="f8").reshape(2, 3))))
+    out.append(("dtype-f4", np.dtype("f4")))
+    out.append(("dtype-f8", np.dtype("f8")))
+    out.append(("dtype-rec", np.dtype([("a", "u1")])))
+    out.append(("scalar-f4", np.float32(1.0)))
+    out.append(("scalar-f8", np.float64(1.0)))
+    out.append(("list-of-arrays", [np.arange(3), np.arange(3)]))
+    out.append(("list-of-one-array-twice", [np.arange(3)] * 2))
+    out.append(("dict-of-arrays", {"x": np.arange(3), "y": np.arange(3.0)}))
+    return out
+if len(sys.argv) > 1 and sys.argv[1] == "digests":
+    print(json.dumps({n: joblib.hash(v) for n, v in universe()}))
+    sys.exit(0)
+U = universe()
+bad = None
+for hn in ("md5", "sha1"):
+    seen = {}
+    for n, v in U:
+        h = joblib.hash(v, hash_name=hn)
+        if h in seen and not (n.startswith("list-of") and seen[h].startswith("list-of")) and not bad:
+            bad = "%s and %s get the same %s digest" % (seen[h], n, hn)
+        seen.setdefault(h, n)
+        # an equal copy, and the same value after a pickle round trip, hash alike
+        for how, w in (("copy", pickle.loads(pickle.dumps(v)) if not isinstance(v, np.ndarray) else v.copy(order="K")), ("pickle round trip", pickle.loads(pickle.dumps(v)))):
+            if isinstance(v, np.ndarray) and isinstance(w, np.ndarray) and (w.strides != v.strides or w.flags.c_contiguous != v.flags.c_contiguous or w.dtype != v.dtype):
+                continue  # numpy normalised the layout: another value as far as joblib.hash is concerned (strides are part of it)
+            if joblib.hash(w, hash_name=hn) != h and not bad:
+                bad = "%s: %s of the value gets another %s digest" % (n, how, hn)
+    if bad:
+        break
+# memmap vs in-memory array: told apart by default, alike with coerce_mmap
+d = tempfile.mkdtemp()
+a = np.arange(50, dtype="f8")
+m = np.memmap(os.path.join(d, "m.bin"), dtype="f8", mode="w+", shape=(50,))
+m[:] = a
+if not bad and joblib.hash(m) == joblib.hash(a):
+    bad = "a memmap and an equal in-memory array get the same digest without coerce_mmap"
+if not bad and joblib.hash(m, coerce_mmap=True) != joblib.hash(a, coerce_mmap=True):
+    bad = "coerce_mmap=True: a memmap and an equal in-memory array get different digests"
+print(json.dumps(dict(ok=not bad, what=bad, n=len(U))))
+'''
+
+
+def numpy_only():
+    import tempfile
+    with tempfile.NamedTemporaryFile("w", suffix=".py", delete=False) as f:
+        f.write(NUMPY)
+    try:
+        pr = subprocess.run([sys.executable, f.name], capture_output=True, text=True, timeout=600)
+        if pr.returncode != 0:
+            raise RuntimeError(pr.stderr[-800:])
+        res = json.loads(pr.stdout.strip().splitlines()[-1])
+        if not res["ok"]:
+            return dict(violation=True, cases=res["n"], what="numpy values: " + res["what"], witness=res["what"])
+        # another process with another string-hash seed gives the same digests
+        ref = None
+        for seed in ("0", "4242", "random"):
+            pr = subprocess.run([sys.executable, f.name, "digests"], capture_output=True, text=True, timeout=600, env=dict(os.environ, PYTHONHASHSEED=seed))
+            if pr.returncode != 0:
+                raise RuntimeError(pr.stderr[-800:])
+            dg = json.loads(pr.stdout.strip().splitlines()[-1])
+            if ref is not None and dg != ref:
+                diff = sorted(k for k in dg if dg[k] != ref[k])
+                return dict(violation=True, cases=res["n"], what="numpy values: digest differs between two interpreter processes (PYTHONHASHSEED): %s" % diff[:5], witness=diff[:5])
+            ref = dg
+        return dict(violation=False, cases=res["n"] * (res["n"] - 1) // 2)
+    finally:
+        os.unlink(f.name)
+
+
 if __name__ == "__main__":
     try:
-        out = pairs_only() if sys.argv[1] == "pairs" else main(int(sys.argv[1]))
+        out = pairs_only() if sys.argv[1] == "pairs" else numpy_only() if sys.argv[1] == "numpy" else main(int(sys.argv[1]))
     except Exception as e:
         out = dict(violation=True, cases=0, what="harness error %r" % (e,), witness=None)
     print(json.dumps(out))
